@@ -19,8 +19,10 @@ PKM_FACTS = {'pkm.supported_ciphers': ['<pkm.supported_ciphers>'], 'pkm.supporte
 
 
 class Tok:
-    def __init__(self, name):
+    """a named opaque value; `attrs` are its modelled attributes (kex.server.encryption ...), reachable through any alias (srv = kex.server)"""
+    def __init__(self, name, attrs=None):
         self.name = name
+        self.attrs = attrs or {}
 
     def __repr__(self):
         return self.name
@@ -33,6 +35,28 @@ class Tok:
 
     def __hash__(self):
         return hash(self.name)
+
+
+def message(prefix, facts):
+    """Tok tree for facts given as {'kex.server.encryption': value}"""
+    root = Tok('<%s>' % prefix)
+    for path, val in facts.items():
+        parts = path.split('.')[1:]
+        cur = root
+        for i, p in enumerate(parts[:-1]):
+            if p not in cur.attrs:
+                cur.attrs[p] = Tok('<%s.%s>' % (prefix, '.'.join(parts[:i + 1])))
+            cur = cur.attrs[p]
+        cur.attrs[parts[-1]] = list(val) if isinstance(val, list) else val
+    return root
+
+
+def attr_hook(base, attr, interp):
+    if isinstance(base, Tok):
+        if attr in base.attrs:
+            return (True, base.attrs[attr])
+        raise Unknown('no model value for attribute %s of %r' % (attr, base))
+    return None
 
 
 def run_output(repo, proto, json_mode=False, client=False):
@@ -48,13 +72,8 @@ def run_output(repo, proto, json_mode=False, client=False):
             raise AnalysisError('output(): parameter %s not found' % need)
     env.update({'out': Opaque(), 'aconf': Opaque(), 'aconf.json': json_mode, 'aconf.host': 'h', 'aconf.port': 22, 'aconf.json_print_indent': False, 'aconf.client_audit': client, 'aconf.verbose': False, 'aconf.batch': False,
                 'banner': None, 'header': [], 'client_host': 'c' if client else None, 'print_target': False, 'dh_rate_test_notes': ''})
-    kex_tok, pkm_tok = Tok('<kex>'), Tok('<pkm>')
-    env['kex'] = kex_tok if proto == 2 else None
-    env['pkm'] = pkm_tok if proto == 1 else None
-    if proto == 2:
-        env.update({k: list(v) for k, v in KEX_FACTS.items()})
-    else:
-        env.update({k: list(v) for k, v in PKM_FACTS.items()})
+    env['kex'] = message('kex', KEX_FACTS) if proto == 2 else None
+    env['pkm'] = message('pkm', PKM_FACTS) if proto == 1 else None
     for p in params:
         if p not in env:
             d = None
@@ -91,7 +110,7 @@ def run_output(repo, proto, json_mode=False, client=False):
         if t == 'post_process_findings':
             return (True, (Opaque(), Opaque()))
         return None
-    it = Interp(call_hook=hook, budget=40000)
+    it = Interp(call_hook=hook, budget=40000, attr_hook=attr_hook)
     try:
         finals = it.run(outf.body, env)
     except Unknown as ex:
@@ -115,18 +134,17 @@ def run_build_struct(repo, proto, client=False, sizes=False):
     env = {'target_host': 'h:22', 'banner': Tok('<banner>'), 'banner.protocol': (2, 0), 'banner.software': '<banner.software>', 'banner.comments': '<banner.comments>',
            'client_host': 'c' if client else None, 'software': Opaque(), 'algorithms': Opaque(), 'algorithm_recommendation_suppress_list': Opaque(), 'additional_notes': ['<note>'],
            'HostKeyTest.RSA_FAMILY': ['ssh-rsa', 'rsa-sha2-256', 'rsa-sha2-512']}
-    env['kex'] = Tok('<kex>') if proto == 2 else None
-    env['pkm'] = Tok('<pkm>') if proto == 1 else None
     lists = {}
     if proto == 2:
         for k in KEX_FACTS:
             short = k.split('.', 1)[1]
             lists[k] = ['<%s No.1>' % short, '', '<%s No.2>' % short, '  ']
         lists['kex.server.compression'] = ['none', '<zlib>']
-        env.update({k: list(v) for k, v in lists.items()})
+        env['kex'] = message('kex', lists)
+        env['pkm'] = None
     else:
-        env.update({k: list(v) for k, v in PKM_FACTS.items()})
-        env['pkm.host_key_fingerprint_data'] = Opaque()
+        env['kex'] = None
+        env['pkm'] = message('pkm', dict(PKM_FACTS, **{'pkm.host_key_fingerprint_data': Opaque()}))
     nd = len(bs.args.defaults)
     for q, dv in zip(params[len(params) - nd:], bs.args.defaults):
         if q not in env:
@@ -153,7 +171,7 @@ def run_build_struct(repo, proto, client=False, sizes=False):
             return (True, {c: {'<%s No.1>' % src.split('.', 1)[1]: [[]]} for c, src in (('kex', 'kex.kex_algorithms'), ('key', 'kex.key_algorithms'), ('enc', 'kex.server.encryption'), ('mac', 'kex.server.mac'))})
         return None
     fn = repo.func('ssh_audit', 'build_struct.fetch_notes') if repo.has_func('ssh_audit', 'build_struct.fetch_notes') else None
-    it = Interp(call_hook=hook, budget=40000)
+    it = Interp(call_hook=hook, budget=40000, attr_hook=attr_hook)
     try:
         finals = it.run(bs.body, env)
     except Unknown as ex:
